@@ -467,6 +467,7 @@ class Executor:
         self.max_paths = 200000
         self.max_path_instrs = 3000000
         self.want_models = 1
+        self.model_refiners = []
         self.init_done = False
         self.global_snapshot = None
         self.called = set()
@@ -1608,11 +1609,17 @@ class Executor:
         r = self.check()
         if r != z3.sat:
             return None
-        m = self.solver.model()
+        return self.model_tape(self.solver.model())
+
+    def model_tape(self, m):
         out = []
         for kind, c, w in self.nondets:
-            v = m.eval(c, model_completion=True)
-            out.append(v.as_long())
+            v = m.eval(c, model_completion=True).as_long()
+            if w > 64:
+                for i in range(w // 64 - 1, -1, -1):      # most significant word first
+                    out.append((v >> (64 * i)) & mask(64))
+            else:
+                out.append(v)
         return out
 
     # harness primitives -----------------------------------------------------
@@ -1628,7 +1635,19 @@ class Executor:
         r = self.check(z3.Not(c))
         if r == z3.sat:
             m = self.solver.model()
-            vals = [m.eval(cc, model_completion=True).as_long() for _, cc, _ in self.nondets]
+            # model refiners (e.g. the algebraic model) try to find a counterexample that does not depend
+            # on values the harness cannot control natively, so that the native replay can reproduce it
+            for ref in self.model_refiners:
+                extra = ref(self, m, z3.Not(c))
+                if extra:
+                    self.solver.push()
+                    self.solver.add(z3.Not(c))
+                    for e in extra:
+                        self.solver.add(e)
+                    if self.check() == z3.sat:
+                        m = self.solver.model()
+                    self.solver.pop()
+            vals = self.model_tape(m)
             raise PathEnd('assert_fail', {'msg': msg, 'model': vals})
         if r == z3.unknown:
             self.inconclusive.append('assert unknown: ' + msg)
